@@ -121,7 +121,7 @@ func c08Check(c LogCase) (r evid.Result) {
 
 func c08Gen(t *rapid.T) LogCase {
 	c := genLogCase(t, datagen.QueryOpts{MaxStages: 4, AllowDistinct: true, AllowParsers: true, AllowRewrite: true, QuotedValues: true, DropMsgOften: true},
-		[]string{"plain", "json", "logfmt", "delim"})
+		[]string{"plain", "json", "logfmt", "delim", "packed"})
 	recs := append([]model.Rec(nil), c.Recs...)
 	model.SortRecs(recs)
 	n := 0
